@@ -262,6 +262,15 @@ func (s *Server) parseSearchScanBaseTokens(
 ) (
 	vsout []string, tout searchScanBaseTokens, err error,
 ) {
+	// When a later token is rejected the caller never sees the clauses parsed
+	// so far (tout stays empty): their Lua states go back to the pool here.
+	defer func() {
+		if err != nil {
+			for _, whereeval := range t.whereevals {
+				whereeval.Close()
+			}
+		}
+	}()
 	var ok bool
 	if vs, t.key, ok = tokenval(vs); !ok || t.key == "" {
 		err = errInvalidNumberOfArguments
